@@ -113,3 +113,44 @@ impl BufferHandle {
         BufferHandle(x.0.into_buffer())
     }
 }
+
+/// Run the crate-private bump allocator ([crate::memory::Memory]) on a sequence of slice
+/// requests and report where each slice was placed.
+///
+/// `requests[i] = (k, count)` asks for `count` elements of the unsigned integer type with
+/// `1 << k` bytes (k = 0..=4: u8, u16, u32, u64, u128); each request is served from the remainder
+/// returned by the previous one. The allocation is `total_bytes` long and 16-byte aligned, so the
+/// returned offsets (relative to its start) are deterministic. Returns the `(offset, len)` in
+/// bytes of every slice and of the final remainder. Panics of the allocator pass through.
+pub fn memory_split(total_bytes: usize, requests: &[(u8, usize)]) -> (alloc::vec::Vec<(usize, usize)>, (usize, usize)) {
+    use crate::memory::{Memory, MemoryAllocation};
+    use alloc::alloc::Layout;
+
+    fn go(mem: &mut Memory, base: usize, requests: &[(u8, usize)], out: &mut alloc::vec::Vec<(usize, usize)>) -> (usize, usize) {
+        macro_rules! step {
+            ($t:ty, $n:expr, $rest:expr) => {{
+                let (slice, mut remainder) = mem.allocate_slice_fill::<$t>($n, 0);
+                out.push((slice.as_ptr() as usize - base, slice.len() * core::mem::size_of::<$t>()));
+                go(&mut remainder, base, $rest, out)
+            }};
+        }
+        match requests.split_first() {
+            None => mem.verif_bounds(base),
+            Some((&(k, n), rest)) => match k {
+                0 => step!(u8, n, rest),
+                1 => step!(u16, n, rest),
+                2 => step!(u32, n, rest),
+                3 => step!(u64, n, rest),
+                4 => step!(u128, n, rest),
+                _ => panic!("memory_split: element size code out of range"),
+            },
+        }
+    }
+
+    let mut allocation = MemoryAllocation::new(Layout::from_size_align(total_bytes, 16).unwrap());
+    let mut memory = allocation.memory();
+    let base = memory.verif_bounds(0).0;
+    let mut out = alloc::vec::Vec::new();
+    let rem = go(&mut memory, base, requests, &mut out);
+    (out, rem)
+}
